@@ -2,15 +2,17 @@ import AioslskVerif.Model.PeerConnect
 /-!
 Line protocol for K_C11.
 
-  new <fallback|race> <lookup:0|1> <srvFail:0|1>
-  addrReply <valid|noAddr|noPort> | connectOk <0|1> | connectRefused | connectTimeout | pierce | cannotConnect
-    | indirectTimeout | cancelRequest
+  new <fallback|race> <lookup:0|1> <srvFail:0|1> <typ:P|D|F> <dialObf:0|1>
+  addrReply <valid|noAddr|noPort> | connectOk <0|1> | connectRefused | connectTimeout | pierce <obfuscatedPort:0|1>
+    | cannotConnect | indirectTimeout | cancelRequest
+  probe                                                      -> the state + ` use=<rx><tx>` (rejected unless returned)
+  back <typ:P|D|F> <portObf:0|1>                             -> `enc=<c|o> use=<rx><tx>` (connect-back, wire level)
   note <d:CONNECTING|d:CONNECTED|d:INIT|d:CLOSING|d:CLOSED|a:CONNECTED|a:INIT|a:CLOSING|a:CLOSED|w:CLOSING|w:CLOSED>
   show                                                       -> the current state again
   selectPort <prefer:0|1> <port> <obfuscatedPort>            -> `<port> <0|1>`
 Answer: `res=<pending|D|I|raised|cancelled> reg=<d,i> tw=<0|1> rw=<0|1> aw=<0|1> open=<d,i> ctp=<0|1> init=<0|1>
-held=<labels>` (`ctp`: ConnectToPeer reached the server; `init`: PeerInit reached the peer; `held`: the notifications
-whose listeners have not returned) or `rejected` / `bad-op`.
+enc=<-|c|o> held=<labels>` (`ctp`: ConnectToPeer reached the server; `init`: PeerInit reached the peer; `enc`: in clear /
+obfuscated; `held`: the notifications whose listeners have not returned) or `rejected` / `bad-op`.
 -/
 open AioslskVerif.PeerConnect
 
@@ -30,13 +32,18 @@ def heldA : APh → List String
 def heldW : IPh → List String
   | .wClosing => ["w:CLOSING"] | .wClosed => ["w:CLOSED"] | _ => []
 
-def snapshot (s : S) : String :=
-  let aReg := s.a = .nInit ∨ s.a = .nClosing
-  let aOpen := s.a = .nConnected ∨ aReg
+def showEnc : Option Bool → String
+  | none => "-" | some false => "c" | some true => "o"
+
+def snapshot (x : X) : String :=
+  let s := x.s
+  -- an accepted connection is registered when CONNECTED is reported, before its listeners run
+  let aReg := s.a = .nConnected ∨ s.a = .nInit ∨ s.a = .nClosing
+  let aOpen := aReg
   let reg := (if s.dc ≠ .none then ["d"] else []) ++ (if s.ic then ["i"] else []) ++ (if aReg then ["i"] else [])
   let op := (if s.dc = .open then ["d"] else []) ++ (if s.ic then ["i"] else []) ++ (if aOpen then ["i"] else [])
   let held := heldA s.a ++ heldD s.d ++ heldW s.i
-  s!"res={showRes s.res} reg={",".intercalate reg} tw={b01 s.tw} rw={b01 s.rw} aw={b01 s.aw} open={",".intercalate op} ctp={b01 (s.i ≠ .notStarted && !s.srvFail)} init={b01 s.ps} held={",".intercalate held}"
+  s!"res={showRes s.res} reg={",".intercalate reg} tw={b01 s.tw} rw={b01 s.rw} aw={b01 s.aw} open={",".intercalate op} ctp={b01 (s.i ≠ .notStarted && !s.srvFail)} init={b01 s.ps} enc={showEnc x.initEnc} held={",".intercalate held}"
 
 def parseBool : String → Option Bool
   | "0" => some false | "1" => some true | _ => none
@@ -55,19 +62,34 @@ def parseOp : List String → Option Op
   | ["connectOk", b] => (parseBool b).map .connectOk
   | ["connectRefused"] => some .connectRefused
   | ["connectTimeout"] => some .connectTimeout
-  | ["pierce"] => some .pierce
+  | ["pierce", b] => (parseBool b).map .pierce
+  | ["probe"] => some .probe
   | ["cannotConnect"] => some .cannotConnect
   | ["indirectTimeout"] => some .indirectTimeout
   | ["cancelRequest"] => some .cancelRequest
   | ["note", n] => (parseNote n).map .note
   | _ => none
 
-def handle (s : Option S) (line : String) : Option S × String :=
+def parseCT : String → Option CT
+  | "P" => some .peer | "D" => some .distributed | "F" => some .file | _ => none
+
+def showUse : Option (Bool × Bool) → String
+  | some (rx, tx) => s!" use={b01 rx}{b01 tx}"
+  | none => ""
+
+def handle (s : Option X) (line : String) : Option X × String :=
   match (line.splitOn " ").filter (· ≠ "") with
-  | ["new", m, l, f] =>
-    match (match m with | "fallback" => some Mode.fallback | "race" => some Mode.race | _ => none), parseBool l, parseBool f with
-    | some m, some l, some f => let s' := init m l f; (some s', snapshot s')
-    | _, _, _ => (s, "bad-op")
+  | ["new", m, l, f, t, o] =>
+    match (match m with | "fallback" => some Mode.fallback | "race" => some Mode.race | _ => none), parseBool l, parseBool f,
+        parseCT t, parseBool o with
+    | some m, some l, some f, some t, some o => let s' := xinit t o m l f; (some s', snapshot s')
+    | _, _, _, _, _ => (s, "bad-op")
+  | ["back", t, o] =>
+    match parseCT t, parseBool o with
+    | some t, some o =>
+      let (enc, w) := connectBackWire t o
+      (s, s!"enc={showEnc (some enc)} use={b01 (rxOK t o w)}{b01 (txOK t o w)}")
+    | _, _ => (s, "bad-op")
   | ["selectPort", p, a, b] =>
     match parseBool p, a.toNat?, b.toNat? with
     | some p, some a, some b => let (port, o) := selectPort p a b; (s, s!"{port} {b01 o}")
@@ -79,12 +101,12 @@ def handle (s : Option S) (line : String) : Option S × String :=
   | toks =>
     match s, parseOp toks with
     | some st, some op =>
-      match step st op with
+      match xstep st op with
       | none => (s, "rejected")
-      | some st' => (some st', snapshot st')
+      | some st' => (some st', snapshot st' ++ (if op = .probe then showUse (usable st') else ""))
     | _, _ => (s, "bad-op")
 
-partial def loop (h : IO.FS.Stream) (s : Option S) : IO Unit := do
+partial def loop (h : IO.FS.Stream) (s : Option X) : IO Unit := do
   let line ← h.getLine
   if line.isEmpty then return ()
   let (s', out) := handle s line.trimAscii.toString
